@@ -6,6 +6,9 @@ case = {
   'prog': ['RI'|'RM'|'IT'|'RT', ...]      # open() variant only: explicit steps after the request was sent
   'nreq': 0|1|2                           # request messages (stream-request cardinalities; unary: always 1)
   'codec': bool                           # status_details_codec=ProtoStatusDetailsCodec() present
+  'csub': 'proto' | 'json'                # __content_subtype__ of the channel's message codec
+  'lis': 'imt' subset, e.g. 'it'          # suspending listeners: RecvInitialMetadata / RecvMessage /
+                                          # RecvTrailingMetadata
   'batches': [{'trig': 'B' | k, 'events': [ev, ...]}, ...]
 }
 ev = ['H', [[name, value], ...], end_stream] | ['D', n_bytes_of_payload, end_stream] | ['T', [[name, value], ...]]
@@ -18,26 +21,36 @@ Delivery rule (the same rule is implemented by Model/ClientCall.v):
     comes first ("the cut is delivered before the operation starts");
   * trig = 'B': the batch is delivered only when the client is blocked at quiescence ("while the
     operation blocks");
+  * trig = 'L': the batch is delivered while a listener is suspended: every listener parks its task once;
+    if the NEXT batch has trigger 'L' it is delivered then (at most one per suspension), after which the
+    listener is released;
   * when the client is blocked, exactly one batch (the next one, whatever its trigger) is delivered and
     the loop runs to quiescence again; blocked with no batch left = HANG.
 Observation: ('ok', n_replies) | ('exc', exc_name, message_check) | ('hang',)
 """
+import asyncio
 import logging
 import struct
 
 from grpclib.client import (UnaryUnaryMethod, UnaryStreamMethod, StreamUnaryMethod,
                             StreamStreamMethod)
 from grpclib.encoding.proto import ProtoStatusDetailsCodec
+from grpclib.events import listen, RecvInitialMetadata, RecvMessage, RecvTrailingMetadata
 from grpclib.exceptions import GRPCError
 from h2.events import RequestReceived
 
 from harness import vloop, wire, peer as P
-from harness.svc import exc_name
+from harness.svc import exc_name, RawCodec
 
 logging.getLogger('grpclib').setLevel(logging.CRITICAL)
 
 METHODS = {'UU': UnaryUnaryMethod, 'US': UnaryStreamMethod, 'SU': StreamUnaryMethod,
            'SS': StreamStreamMethod}
+
+
+class JsonSubtypeCodec(RawCodec):
+    """opaque bytes, announced as application/grpc+json"""
+    __content_subtype__ = 'json'
 
 
 class Delivery:
@@ -48,6 +61,21 @@ class Delivery:
         self.sid = None
         self.errors = []       # exceptions escaping from the connection's input path (C12's concern)
         self.log = []
+        self.gate = None       # future a suspended listener waits on
+
+    async def listener(self, event):
+        self.gate = asyncio.get_event_loop().create_future()
+        try:
+            await self.gate
+        finally:
+            self.gate = None
+
+    def in_listener(self):
+        """a listener is suspended: deliver the next batch if it is an 'L' batch, then release it"""
+        if self.pos < len(self.batches) and self.batches[self.pos]['trig'] == 'L':
+            self.deliver_one()
+        if self.gate is not None and not self.gate.done():
+            self.gate.set_result(None)
 
     def _sid(self):
         if self.sid is None:
@@ -111,9 +139,15 @@ def run_case(case, span=50.0):
         kw = {}
         if case.get('codec', True):
             kw['status_details_codec'] = ProtoStatusDetailsCodec()
+        if case.get('csub', 'proto') == 'json':
+            kw['codec'] = JsonSubtypeCodec()
         ce = wire.ClientEnd(loop, **kw)
         method = METHODS[card](ce.channel, '/v.S/M', bytes, bytes)
         dl = Delivery(ce, case['batches'])
+        lis = case.get('lis', '')
+        for ch, ev in (('i', RecvInitialMetadata), ('m', RecvMessage), ('t', RecvTrailingMetadata)):
+            if ch in lis:
+                listen(ce.channel, ev, dl.listener)
         nreq = int(case.get('nreq', 1))
         info = {}
 
@@ -157,12 +191,15 @@ def run_case(case, span=50.0):
 
         task = loop.create_task(simple() if case['variant'] == 'call' else opened())
         why = None
-        for _ in range(len(case['batches']) + 2):
+        for _ in range(4 * len(case['batches']) + 40):
             why = loop.run_quiet(span)
             if task.done():
                 break
             if why != 'quiescent':
                 break
+            if dl.gate is not None:
+                dl.in_listener()
+                continue
             if not dl.when_blocked():
                 break
         o = vloop.outcome(task)
